@@ -23,7 +23,7 @@ REQUIRE_LUA_PREAMBLE_PACKAGE = (b'package={loaded={},_c={}}\n',)
 REQUIRE_LUA_PREAMBLE_REQUIRE = (
     b'function require(p)\n',
     b'local l=package.loaded\n',
-    b'if (l[p]==nil) l[p]=package._c[p]()\n',
+    b'if (l[p]==nil) l[p]=package._c[p](p)\n',
     b'if (l[p]==nil) l[p]=true\n',
     b'return l[p]\n',
     b'end\n')
@@ -129,6 +129,17 @@ class RequireWalker(lua.BaseASTWalker):
                     yield t
 
 
+class _ChunkVarargWalker(lua.BaseASTWalker):
+    """Yields once for each "..." used outside of every function body."""
+
+    def _walk_FunctionBody(self, node):
+        # ("..." in there is the function's own.)
+        return None
+
+    def _walk_VarargDots(self, node):
+        yield True
+
+
 def _evaluate_require(ast, file_path, package_lua, lua_path=None):
     """Evaluate require() statements in a Lua AST.
 
@@ -222,8 +233,12 @@ def _prepend_package_lua(orig_ast, package_lua):
     package_header.extend(REQUIRE_LUA_PREAMBLE_PACKAGE)
     for pth, ast in package_lua.items():
         escaped_pth = pth.replace(b'\\', b'\\\\').replace(b'"', b'\\"')
+        # (A package that uses "..." outside of its functions - a chunk is a
+        # vararg function: "local name = ..." - needs a vararg wrapper.)
+        params = (b'...' if any(_ChunkVarargWalker(ast.tokens, ast.root).walk())
+                  else b'')
         package_header.append(
-            b'package._c["' + escaped_pth + b'"]=function()\n')
+            b'package._c["' + escaped_pth + b'"]=function(' + params + b')\n')
         package_lines = list(ast.to_lines())
         if package_lines and not package_lines[-1].endswith(b'\n'):
             # (Don't join the package's last line with the "end".)
